@@ -73,6 +73,7 @@ func setup(repo, verif, tags string) (*Prog, error) {
 		return nil, err
 	}
 	p.CS = cs
+	p.Notes = p.synthesizeFrontends()
 	p.computeEffects()
 	return p, nil
 }
@@ -182,15 +183,13 @@ func runProperty(p *Prog, pc *PropConfig, cfg RunConfig, tags string, only strin
 		if only != "" && !strings.Contains(c.Key, only) {
 			continue
 		}
-		if t := c.Flags["tags"]; t != "" || tags != "" {
-			// a contract may be restricted to a build (flag tags binary_log / flag tags !binary_log)
-			if t == "!"+tags && tags != "" {
-				continue
-			}
-			if t != "" && !strings.HasPrefix(t, "!") && t != tags {
-				continue
-			}
-			if strings.HasPrefix(t, "!") && tags == "" && false {
+		if t := c.Flags["tags"]; t != "" {
+			// a contract may be restricted to one build: flag tags binary_log / flag tags !binary_log
+			if strings.HasPrefix(t, "!") {
+				if tags == t[1:] {
+					continue
+				}
+			} else if tags != t {
 				continue
 			}
 		}
